@@ -4,9 +4,14 @@
 // object (constructed from the list, then copied / assigned / changed in place / asked questions / used in earlier
 // Rotation_Matrix and Spherical_Coordinates calls) before the operation receives that very object; the matrices that
 // are multiplied (rotcomp, rotapply, rotback, rotsph) get a history of their own at the end of the line.
+// `seq p obj_1 .. obj_p m call_1 .. call_m`: a history of CALLS (Rotation_Matrix with / without axis, both Spherical_Coordinates,
+// Angle) made one after the other in ONE process that has run nothing else before, on temporaries (`l <list>`) or on the
+// live Vector objects obj_i (`o i`) that serve several calls; next to it the answer of a pristine process to each call alone.
 #include "common.hpp"
 #include <memory>
 #include <sstream>
+#include <cerrno>
+#include <sys/socket.h>
 #include "libphysica/Linear_Algebra.hpp"
 using namespace libphysica;
 static volatile double g_sink = 0.0;	// results of the history's questions end here (so that the calls are not removed)
@@ -162,6 +167,246 @@ static void mat_history(vh::Reader& r, MatP& A)
 		else bad_step(st);
 	}
 }
+
+// ---------- histories of calls in one process ----------
+static const Vector& vec_ref(vh::Reader& r, std::vector<VecP>& pool, std::vector<VecP>& tmps)
+{
+	std::string k = r.word();
+	if(k == "o")
+	{
+		long i = r.integer();
+		if(i < 0 || (size_t) i >= pool.size())
+			bad_step("o " + std::to_string(i));
+		return *pool[(size_t) i];
+	}
+	if(k != "l")
+		bad_step(k);
+	tmps.emplace_back(new Vector(r.list()));
+	return *tmps.back();
+}
+//   rot alpha dim <vec> | rotdef alpha dim | sph r theta phi | spha r theta phi <vec> | angle <vec> <vec>      <vec> = o i | l <list>
+static void one_call(vh::Reader& r, vh::Out& o, std::vector<VecP>& pool)
+{
+	std::vector<VecP> tmps;
+	std::string c = r.word();
+	if(c == "rot")
+	{
+		double alpha	   = r.num();
+		long dim		   = r.integer();
+		const Vector& axis = vec_ref(r, pool, tmps);
+		put_mat(o, Rotation_Matrix(alpha, (int) dim, axis));
+	}
+	else if(c == "rotdef")
+	{
+		double alpha = r.num();
+		long dim	 = r.integer();
+		put_mat(o, Rotation_Matrix(alpha, (int) dim));
+	}
+	else if(c == "sph")
+	{
+		double rr = r.num(), th = r.num(), ph = r.num();
+		put_vec(o, Spherical_Coordinates(rr, th, ph));
+	}
+	else if(c == "spha")
+	{
+		double rr = r.num(), th = r.num(), ph = r.num();
+		const Vector& axis = vec_ref(r, pool, tmps);
+		put_vec(o, Spherical_Coordinates(rr, th, ph, axis));
+	}
+	else if(c == "angle")
+	{
+		const Vector& a = vec_ref(r, pool, tmps);
+		const Vector& b = vec_ref(r, pool, tmps);
+		o.f(Angle(a, b));
+	}
+	else
+		bad_step(c);
+}
+// p obj_1 .. obj_p m call_1 .. call_m  ->  [m] answer_1 .. answer_m
+static void run_calls(vh::Reader& r, vh::Out& o, bool with_count)
+{
+	long p = r.integer();
+	std::vector<VecP> pool;
+	for(long i = 0; i < p; i++)
+		pool.emplace_back(new Vector(r.list()));
+	long m = r.integer();
+	if(with_count)
+		o.i(m);
+	for(long j = 0; j < m; j++)
+		one_call(r, o, pool);
+}
+// the text of one call with every `o i` replaced by `l <the list obj_i was constructed from>` (what a process sees that makes this call only)
+static std::string list_text(vh::Reader& r)
+{
+	std::string n = r.word(), t = n;
+	for(long k = 0, e = std::strtol(n.c_str(), nullptr, 10); k < e; k++)
+		t += " " + r.word();
+	return t;
+}
+static std::string vec_text(vh::Reader& r, const std::vector<std::string>& pool)
+{
+	std::string k = r.word();
+	if(k == "o")
+	{
+		long i = r.integer();
+		if(i < 0 || (size_t) i >= pool.size())
+			bad_step("o " + std::to_string(i));
+		return "l " + pool[(size_t) i];
+	}
+	if(k != "l")
+		bad_step(k);
+	return "l " + list_text(r);
+}
+static std::string call_text(vh::Reader& r, const std::vector<std::string>& pool)
+{
+	std::string c = r.word(), t = c;
+	size_t scalars = (c == "rot" || c == "rotdef") ? 2 : (c == "sph" || c == "spha") ? 3 : 0, vecs = (c == "rot" || c == "spha") ? 1 : (c == "angle") ? 2 : 0;
+	if(scalars == 0 && vecs == 0)
+		bad_step(c);
+	for(size_t k = 0; k < scalars; k++)
+		t += " " + r.word();
+	for(size_t k = 0; k < vecs; k++)
+		t += " " + vec_text(r, pool);
+	return t;
+}
+
+// ---------- pristine-process server (as in harness/C06.cpp) ----------
+// Started by main() before any library function has run.  A request "<id> H|F <p objs m calls>" is answered by a process
+// forked from the server (a process in which no library function has been called yet) that makes the calls one after the
+// other and replies "<id> [m] answers" (H: with the count); when the library ends that process the reply is "<id> EXIT"
+// (TIMEOUT, CRASH sig=n, SANITIZER n).  The result of a `seq` case does not depend on what the worker has run before.
+static int g_srv = -1;
+static bool read_line(int fd, std::string& l)
+{
+	l.clear();
+	char c;
+	for(;;)
+	{
+		ssize_t n = read(fd, &c, 1);
+		if(n == 0)
+			return false;
+		if(n < 0)
+		{
+			if(errno == EINTR)
+				continue;
+			return false;
+		}
+		if(c == '\n')
+			return true;
+		l.push_back(c);
+	}
+}
+static void write_all(int fd, const std::string& s)
+{
+	size_t k = 0;
+	while(k < s.size())
+	{
+		ssize_t n = write(fd, s.data() + k, s.size() - k);
+		if(n <= 0)
+		{
+			if(n < 0 && errno == EINTR)
+				continue;
+			return;
+		}
+		k += (size_t) n;
+	}
+}
+static void start_server()
+{
+	int sv[2];
+	if(socketpair(AF_UNIX, SOCK_STREAM, 0, sv) != 0)
+		return;
+	fflush(stdout);
+	fflush(stderr);
+	pid_t pid = fork();
+	if(pid != 0)
+	{
+		close(sv[1]);
+		g_srv = sv[0];
+		return;
+	}
+	close(sv[0]);
+	signal(SIGPIPE, SIG_IGN);
+	int fd = sv[1];
+	std::string l;
+	while(read_line(fd, l))
+	{
+		vh::Reader r(l);
+		std::string id = r.word();
+		pid_t g		   = fork();
+		if(g == 0)
+		{
+			int nul = open("/dev/null", O_WRONLY);
+			dup2(nul, 1);
+			dup2(nul, 2);
+			alarm(20);
+			std::string mode = r.word();
+			vh::Out o;
+			run_calls(r, o, mode == "H");
+			write_all(fd, id + " " + o.s.str() + "\n");
+			_exit(0);
+		}
+		int st = 0;
+		waitpid(g, &st, 0);
+		if(WIFEXITED(st) && WEXITSTATUS(st) == 0)
+			continue;
+		std::string why;
+		if(WIFEXITED(st) && (WEXITSTATUS(st) == 99 || WEXITSTATUS(st) == 98))
+			why = "SANITIZER " + std::to_string(WEXITSTATUS(st));
+		else if(WIFEXITED(st) && WEXITSTATUS(st) == 77)
+			why = "HARNESSERR";
+		else if(WIFEXITED(st))
+			why = "EXIT";
+		else if(WIFSIGNALED(st) && WTERMSIG(st) == SIGALRM)
+			why = "TIMEOUT";
+		else
+			why = "CRASH sig=" + std::to_string(WIFSIGNALED(st) ? WTERMSIG(st) : 0);
+		write_all(fd, id + " " + why + "\n");
+	}
+	_exit(0);
+}
+static std::string ask_server(const std::string& request)
+{
+	static long counter = 0;
+	std::string id		= std::to_string((long) getpid()) + "." + std::to_string(++counter);
+	write_all(g_srv, id + " " + request + "\n");
+	std::string l;
+	while(read_line(g_srv, l))
+	{
+		// replies to requests of a worker that died meanwhile are skipped
+		if(l.compare(0, id.size() + 1, id + " ") == 0)
+			return l.substr(id.size() + 1);
+	}
+	return "HARNESSERR server_gone";
+}
+static void seq_case(vh::Reader& r, vh::Out& o)
+{
+	// the text of the request, and of every call as a request of its own
+	std::string body;
+	for(size_t k = r.i; k < r.t.size(); k++)
+		body += (k > r.i ? " " : "") + r.t[k];
+	long p = r.integer();
+	std::vector<std::string> pool;
+	for(long i = 0; i < p; i++)
+		pool.push_back(list_text(r));
+	long m = r.integer();
+	std::vector<std::string> calls;
+	for(long j = 0; j < m; j++)
+		calls.push_back(call_text(r, pool));
+	std::string hist = ask_server("H " + body);
+	if(hist.empty() || !(hist[0] >= '0' && hist[0] <= '9'))
+	{
+		o.w(hist);	 // EXIT, TIMEOUT, CRASH sig=n, SANITIZER n
+		return;
+	}
+	o.w(hist);
+	for(long j = 0; j < m; j++)
+	{
+		std::string fr = ask_server("F 0 1 " + calls[(size_t) j]);
+		bool value	   = !fr.empty() && ((fr[0] >= '0' && fr[0] <= '9') || fr[0] == '-' || fr[0] == 'n' || fr[0] == 'i');
+		o.w(value ? fr : "FRESH_" + vh::Reader(fr).word());
+	}
+}
 static void handler(vh::Reader& r, vh::Out& o)
 {
 	std::string op = r.word();
@@ -171,7 +416,9 @@ static void handler(vh::Reader& r, vh::Out& o)
 		g_hist = true;
 		op	   = r.word();
 	}
-	if(op == "rot")
+	if(op == "seq")
+		seq_case(r, o);
+	else if(op == "rot")
 	{
 		double alpha = r.num();
 		long dim	 = r.integer();
@@ -288,4 +535,8 @@ static void handler(vh::Reader& r, vh::Out& o)
 	else
 		o.w("HARNESSERR unknown_op");
 }
-int main(int argc, char** argv) { return vh::run(argc, argv, handler); }
+int main(int argc, char** argv)
+{
+	start_server();
+	return vh::run(argc, argv, handler);
+}
